@@ -55,6 +55,11 @@ func (fa *FuncAnalysis) errEdge(b *ssa.BasicBlock, i int) (string, bool) {
 // EarlyExits lists the edges that leave the natural loop of h from a block other than h without being an
 // error path (an edge on which an error value was just tested non-nil, or that only reaches error returns).
 func (fa *FuncAnalysis) EarlyExits(h *ssa.BasicBlock) []string {
+	return fa.EarlyExitsExcept(h, nil)
+}
+
+// EarlyExitsExcept: as EarlyExits, but an exit edge whose branch fact satisfies allowed is not reported.
+func (fa *FuncAnalysis) EarlyExitsExcept(h *ssa.BasicBlock, allowed func(Guard) bool) []string {
 	loop := fa.NaturalLoop(h)
 	var out []string
 	for _, b := range fa.Fn.Blocks {
@@ -67,6 +72,11 @@ func (fa *FuncAnalysis) EarlyExits(h *ssa.BasicBlock) []string {
 			}
 			if _, isErr := fa.errEdge(b, i); isErr {
 				continue
+			}
+			if allowed != nil {
+				if g, ok := fa.EdgeFact(b, i); ok && allowed(g) {
+					continue
+				}
 			}
 			// the block itself may be the body of an `if err != nil` (dominated by an error edge)
 			onErrPath := false
@@ -195,6 +205,8 @@ type loopSpec struct {
 	outer  bool     // use the outermost loop containing the anchor instead of the innermost
 	skips  []skipCond
 	props  []string
+	// stopOnAnchor: the loop may be left early when the per-element call (a callback) returned true for THIS element
+	stopOnAnchor bool
 }
 
 var matureSkip = skipCond{"REL:matured", true, "", "entry already matured (completion < block time)"}
@@ -228,6 +240,17 @@ var loopSpecs = []loopSpec{
 	{fn: "keeper.Keeper.GetUnbondingsByDenomAndDelegator", what: "index keys of all validators", anchor: []string{"storetypes.KVStore.Get", "corestore.KVStore.Get"}, outer: true,
 		skips: []skipCond{{"bytes.HasSuffix", false, "", "index key of another denom/delegator"}, {"binop", true, "builtin.len(", "key shorter than the suffix"}}, props: []string{"C20"}},
 	{fn: "keeper.Keeper.InitGenesis", what: "entries of an imported unbonding bucket", anchor: []string{"keeper.Keeper.setUnbondingIndexByVal"}, props: []string{"C18"}},
+	// the shared store iterators hand EVERY record to the callback (their users - reset, rebalance, snapshots, export - rely on it)
+	{fn: "keeper.Keeper.IterateAllianceValidatorInfo", what: "validator records handed to the callback", anchor: []string{"dyn"},
+		stopOnAnchor: true, props: []string{"C03", "C10", "C14", "C18"}},
+	{fn: "keeper.Keeper.IterateDelegations", what: "delegation records handed to the callback", anchor: []string{"dyn"},
+		stopOnAnchor: true, props: []string{"C18"}},
+	{fn: "keeper.Keeper.IterateRedelegations", what: "redelegation records handed to the callback", anchor: []string{"dyn"},
+		stopOnAnchor: true, props: []string{"C18"}},
+	{fn: "keeper.Keeper.IterateUndelegations", what: "unbonding buckets handed to the callback", anchor: []string{"dyn"},
+		stopOnAnchor: true, props: []string{"C18"}},
+	{fn: "keeper.Keeper.IterateAllWeightChangeSnapshot", what: "snapshots handed to the callback", anchor: []string{"dyn"},
+		stopOnAnchor: true, props: []string{"C18"}},
 }
 
 // closureSpecs: per-element callbacks; `via` must be passed on every path that continues the iteration.
@@ -340,7 +363,21 @@ func init() {
 							inLoop = append(inLoop, a)
 						}
 					}
-					if ex := fa.EarlyExits(h); len(ex) > 0 {
+					var allowedExit func(Guard) bool
+					if s.stopOnAnchor {
+						allowedExit = func(g Guard) bool {
+							if !g.Pos {
+								return false
+							}
+							for _, a := range inLoop {
+								if v, ok := a.(ssa.Value); ok && g.If != nil && g.If.Cond == v {
+									return true
+								}
+							}
+							return false
+						}
+					}
+					if ex := fa.EarlyExitsExcept(h, allowedExit); len(ex) > 0 {
 						r.Bad(s.fn, construct+": no early exit", "the loop can be left before all elements were processed (break/return on a non-error path): remaining elements are silently skipped", ex, r.P(anc[0]))
 					} else {
 						r.OK(s.fn, construct+": no early exit", "the loop is left only when exhausted or on an error path", r.P(anc[0]))
@@ -461,7 +498,9 @@ func init() {
 				}
 				ok1 := fa.HasFact(b, a+".TotalTokens", ">", "0")
 				ok2 := fa.HasFact(b, a+".TakeRate", ">", "0")
-				ok3 := fa.HasGuard(b, func(g Guard) bool { return g.Pos && g.Cond.IsCall("types.AllianceAsset.RewardsStarted") && isBlockTime(g.Cond.Args[1]) })
+				ok3 := fa.HasGuard(b, func(g Guard) bool {
+					return g.Pos && g.Cond.IsCall("types.AllianceAsset.RewardsStarted") && isBlockTime(g.Cond.Args[1])
+				})
 				r.Check(ok1 && ok2 && ok3, k, "counter counts chargeable assets only", "the increment is dominated by TotalTokens > 0, TakeRate > 0 and RewardsStarted(BlockTime)", "an asset that cannot be charged (empty, rate zero or still in warm-up) is counted: while it is the only positive-rate asset the take-rate clock neither jumps to the block time nor advances with a transfer, and the stalled intervals are charged retroactively once the asset becomes chargeable", r.P(b))
 			}
 		}})
